@@ -7,7 +7,7 @@ namespace ILV.KStep
 /-- the KG an operation is addressed to -/
 def target : Op → Option Name
   | .create k => some k | .drop k => some k | .ins k _ _ => some k | .del k _ _ => some k | .save k => some k
-  | .restart => none
+  | .restart => none | .saveAll => none
 
 theorem lookup_append_ne {β} (b a : Name) (v : β) (l : List (Name × β)) (h : b ≠ a) :
     lookup b (l ++ [(a, v)]) = lookup b l := by
@@ -46,7 +46,15 @@ theorem lookup_erase_ne {β} (b a : Name) (l : List (Name × β)) (h : b ≠ a) 
 
 theorem ensureShard_kgs (st : State) (s : Name) : (ensureShard st s).kgs = st.kgs := by
   unfold ensureShard; split <;> rfl
-theorem appendUpd_kgs (st : State) (s : Name) (u : Upd) : (appendUpd st s u).kgs = st.kgs := rfl
+theorem appendUpd_kgs (st : State) (s : Name) (u : Upd) : (appendUpd st s u).kgs = st.kgs := by
+  unfold appendUpd; cases st.mode <;> rfl
+theorem appendUpd_mem (st : State) (s : Name) (u : Upd) :
+    (appendUpd st s u).mem = put s { (lookup s st.mem).getD {} with buffer := ((lookup s st.mem).getD {}).buffer ++ [u] } st.mem := by
+  unfold appendUpd; cases st.mode <;> rfl
+theorem appendUpd_files (st : State) (s : Name) (u : Upd) : (appendUpd st s u).files = st.files := by
+  unfold appendUpd; cases st.mode <;> rfl
+@[simp] theorem walSync_kgs (st : State) : (walSync st).kgs = st.kgs := rfl
+@[simp] theorem walRewrite_kgs (st : State) (s : Name) : (walRewrite st s).kgs = st.kgs := rfl
 theorem flushShard_kgs (st : State) (s : Name) : (flushShard st s).kgs = st.kgs := by
   unfold flushShard; split
   · rfl
@@ -68,6 +76,7 @@ theorem step_isolated {st st' : State} {t : Tid} {a b : Name} {rest : List Op} {
   · simp [step, htn] at hs
   cases op with
   | restart => simp [target] at htarget
+  | saveAll => simp [target] at htarget
   | create k =>
     simp only [target, Option.some.injEq] at htarget; subst htarget
     cases hpc : (st.threads t).pc <;> simp only [step, htn, htodo, hpc, if_false] at hs <;>
@@ -90,7 +99,7 @@ theorem step_isolated {st st' : State} {t : Tid} {a b : Name} {rest : List Op} {
   | save k =>
     simp only [target, Option.some.injEq] at htarget; subst htarget
     cases hpc : (st.threads t).pc <;> simp only [step, htn, htodo, hpc, if_false] at hs <;>
-      (repeat' split at hs) <;> (try cases hs) <;> (try rfl) <;> (try (simp only [foldl_flush_kgs]))
+      (repeat' split at hs) <;> (try cases hs) <;> (try rfl) <;> (try (simp only [walSync_kgs, foldl_flush_kgs]))
 
 /-! ### shard metadata files: every shard owns the file at its name, provided file names are distinct -/
 
@@ -183,8 +192,8 @@ theorem owns_ensureShard {st : State} {s : Name} (h : Owns st) (hi : FileInj st 
 theorem owns_appendUpd {st : State} {s : Name} {u : Upd} (h : Owns st) (hs : (lookup s st.mem).isSome = true) :
     Owns (appendUpd st s u) := by
   intro s' sh' hs'
-  unfold appendUpd at hs' ⊢
-  simp only at hs' ⊢
+  rw [appendUpd_mem] at hs'
+  rw [appendUpd_files]
   by_cases he : s' = s
   · subst he
     rw [lookup_put_same] at hs'; cases hs'
@@ -202,7 +211,7 @@ theorem owns_flushShard {st : State} {s : Name} (h : Owns st) (hi : FileInj st s
     split
     · exact h
     · intro s' sh' hs'
-      simp only at hs' ⊢
+      simp only [walRewrite] at hs' ⊢
       by_cases he : s' = s
       · subst he; rw [lookup_put_same] at hs'; cases hs'; exact lookup_put_same _ _ _
       · rw [lookup_put_ne _ _ _ _ he] at hs'
@@ -212,7 +221,7 @@ theorem owns_flushShard {st : State} {s : Name} (h : Owns st) (hi : FileInj st s
 theorem owns_deleteShard {st : State} {s : Name} (h : Owns st) (hi : FileInj st s) : Owns (deleteShard st s) := by
   intro s' sh' hs'
   unfold deleteShard at hs' ⊢
-  simp only at hs' ⊢
+  simp only [walRewrite] at hs' ⊢
   by_cases he : s' = s
   · subst he; rw [lookup_erase_same] at hs'; cases hs'
   · rw [lookup_erase_ne _ _ _ he] at hs'
@@ -324,7 +333,7 @@ def Good (st : State) : Prop :=
     | _, _ => true) = true
 
 theorem restart_flag (st : State) : (restart st).persistedForMissing = st.persistedForMissing := by
-  unfold restart
+  unfold restart restartCore
   simp only
   have hf : ∀ (l : List Name) (s : State), (l.foldl flushShard s).persistedForMissing = s.persistedForMissing := by
     intro l; induction l with
@@ -335,10 +344,10 @@ theorem restart_flag (st : State) : (restart st).persistedForMissing = st.persis
     intro l; induction l with
     | nil => intro s; rfl
     | cons a l ih => intro s; simp only [List.foldl_cons]; rw [ih]
-  split <;> simp only [hf, hw]
+  split <;> simp only [hf, hw] <;> rfl
 
 theorem restart_n (st : State) : (restart st).n = st.n := by
-  unfold restart
+  unfold restart restartCore
   simp only
   have hf : ∀ (l : List Name) (s : State), (l.foldl flushShard s).n = s.n := by
     intro l; induction l with
@@ -349,7 +358,7 @@ theorem restart_n (st : State) : (restart st).n = st.n := by
     intro l; induction l with
     | nil => intro s; rfl
     | cons a l ih => intro s; simp only [List.foldl_cons]; rw [ih]
-  split <;> simp only [hf, hw]
+  split <;> simp only [hf, hw] <;> rfl
 
 theorem foldl_flush_flag (l : List Name) : ∀ s : State, (l.foldl flushShard s).persistedForMissing = s.persistedForMissing ∧ (l.foldl flushShard s).n = s.n := by
   induction l with
@@ -367,7 +376,10 @@ theorem foldl_delete_flag (l : List Name) : ∀ s : State, (l.foldl deleteShard 
 
 theorem ensure_append_flag (st : State) (s : Name) (u : Upd) :
     (appendUpd (ensureShard st s) s u).n = st.n ∧ (appendUpd (ensureShard st s) s u).kgs = st.kgs := by
-  unfold appendUpd ensureShard; split <;> exact ⟨rfl, rfl⟩
+  refine ⟨?_, ?_⟩
+  · have : (appendUpd (ensureShard st s) s u).n = (ensureShard st s).n := by unfold appendUpd; cases (ensureShard st s).mode <;> rfl
+    rw [this]; unfold ensureShard; split <;> rfl
+  · rw [appendUpd_kgs, ensureShard_kgs]
 
 theorem step_good {st st' : State} (h : Good st) (hs : step st 0 = .ok st') : Good st' := by
   obtain ⟨hn, hf, hg⟩ := h
@@ -381,8 +393,8 @@ theorem step_good {st st' : State} (h : Good st) (hs : step st 0 = .ok st') : Go
       (repeat' split at hs) <;> (try cases hs) <;>
       (try (simp at hg)) <;>
       (first
-        | (refine ⟨by simp [hn, (foldl_flush_flag _ _).2, (foldl_delete_flag _ _).2, restart_n, (ensure_append_flag _ _ _).1], ?_, ?_⟩
-           · simp [hf, (foldl_flush_flag _ _).1, (foldl_delete_flag _ _).1, restart_flag, hg]
+        | (refine ⟨by simp [hn, walSync, (foldl_flush_flag _ _).2, (foldl_delete_flag _ _).2, restart_n, (ensure_append_flag _ _ _).1], ?_, ?_⟩
+           · simp [hf, walSync, (foldl_flush_flag _ _).1, (foldl_delete_flag _ _).1, restart_flag, hg]
            · simp [setThread, Thread.finish, htodo]
              try (rename_i hsome; revert hsome; cases lookup _ st.kgs <;> simp)))
 
